@@ -348,6 +348,7 @@ func c20Build(c *fw.Ctx, p c20Param) *schedInst {
 	}
 	panics := make([]string, len(p.Threads))
 	lastStatus := make([]int, len(p.Threads))
+	listed := make([][]string, len(p.Threads)) // object names a "List" thread was shown
 	cctx, cancel := context.WithCancel(context.Background())
 	for i, n := range p.Threads {
 		i, n := i, n
@@ -371,6 +372,15 @@ func c20Build(c *fw.Ctx, p c20Param) *schedInst {
 					panics[i] = r.String() + ": " + resp.Panic
 				}
 				lastStatus[i] = resp.Status
+				if n == "List" && resp.Status == 200 {
+					if pg, err := gcs.ParseList(resp.Body); err == nil {
+						for _, it := range pg.Items {
+							listed[i] = append(listed[i], it.Name)
+						}
+					} else {
+						panics[i] = "unparsable listing: " + err.Error()
+					}
+				}
 			}
 		})
 	}
@@ -389,6 +399,15 @@ func c20Build(c *fw.Ctx, p c20Param) *schedInst {
 		}
 		if r := d.Do(gcs.ReqGetMeta("b", "y")); r.Panic != "" || (r.Status != 200 && r.Status != 404) {
 			return "after", fmt.Sprintf("after the request mix a valid metadata GET answers %d %s", r.Status, r.Panic), "after"
+		}
+		// a listing shows only objects that exist or existed during the mix: never a name nobody ever wrote (a scratch
+		// file of a store, an object of another bucket)
+		for i := range listed {
+			for _, name := range listed[i] {
+				if name != "x" && name != "y" && name != "z" {
+					return "ghost", fmt.Sprintf("a listing of bucket b, concurrent with %v, shows an object %q that no request ever created", p.Threads, name), "ghost"
+				}
+			}
 		}
 		// previously stored data intact: an upload into the fresh bucket that was acknowledged (and that nothing in
 		// the mix deletes) is served afterwards
